@@ -447,6 +447,21 @@ func c08WorkBytes(job *c08Job, out *c08Out) {
 	progs := []string{`a = "str" + f(1, [2,3]) // c` + "\n" + `if a { b } else { c }`, `func f(a,b) { return a[1:] }` + "\n" + `/* bc */ m = {1:2, "k": x => x+1}`,
 		"for i = 3 { print(i)\n}", "(a,b) => { a.b.c }", "`raw\nstring` \"esc\\x41\\u00e9\\U0001F600\"", "1e5 + .5 - 0x1f * 0b11 / 1_0"}
 	ins := []byte{0, 0xff, 0x80, 0xc3, 0xe2, 0xf0, 0x7f, 0x01, '\r', 0x0b, 0x0c, 0xa0}
+	// a comment (block, or line + newline) inserted at every position of one-construct programs, and the construct's inner
+	// tokens replaced by a comment: blocks, lists and branches that hold nothing but a comment must still print in every mode
+	small := []string{"if a {1} else {2}", "if a {} else {}", "if a {1} else if b {2} else {3}", "func f(a, b) {a}", "func() {}", "x => {x}", "() => {}", "(a, b) => a + b",
+		"for a {1}", "for i = 3 {}", "for k, v = m {v}", "[1, 2]", "[]", "{1: 2}", "{}", "f(1, 2)", "f()", "a[1]", "a[1:2]", "a.b", "-a", "a + b * c", "a = 1", "return a", "return",
+		"macro(a) {a}", "quote(a)", "len(a)", "print()", "a++", "(a)", "m = macro(a) {quote(unquote(a))}", "x = {1: [2, {3: 4}]}", "if a {if b {1}} else {for c {2}}"}
+	for _, p := range small {
+		for pos := 0; pos <= len(p); pos++ {
+			for _, cm := range []string{"/* c */", "// c\n", "/**/", "//\n"} {
+				do(p[:pos] + cm + p[pos:])
+				for end := pos + 1; end <= len(p) && end <= pos+3; end++ {
+					do(p[:pos] + cm + p[end:]) // the comment replaces 1..3 bytes
+				}
+			}
+		}
+	}
 	for _, p := range progs {
 		for pos := 0; pos <= len(p); pos++ {
 			for _, c := range ins {
